@@ -81,28 +81,28 @@ type hookEvent struct {
 var hookLog = struct {
 	sync.Mutex
 	on bool
-	m  map[int][]hookEvent
-}{m: map[int][]hookEvent{}}
+	m  map[*Rec][]hookEvent
+}{m: map[*Rec][]hookEvent{}}
 
 func hookLogReset(on bool) {
 	hookLog.Lock()
 	hookLog.on = on
-	hookLog.m = map[int][]hookEvent{}
+	hookLog.m = map[*Rec][]hookEvent{}
 	hookLog.Unlock()
 }
 
-func hookLogTake(tag int) []hookEvent {
+func hookLogTake(x *Rec) []hookEvent {
 	hookLog.Lock()
 	defer hookLog.Unlock()
-	e := hookLog.m[tag]
-	delete(hookLog.m, tag)
+	e := hookLog.m[x]
+	delete(hookLog.m, x)
 	return e
 }
 
 func (r *Rec) logHook(kind string) {
 	hookLog.Lock()
 	if hookLog.on {
-		hookLog.m[r.Tag] = append(hookLog.m[r.Tag], hookEvent{kind, r.Tr, r.Up, r.Lo})
+		hookLog.m[r] = append(hookLog.m[r], hookEvent{kind, r.Tr, r.Up, r.Lo})
 	}
 	hookLog.Unlock()
 }
